@@ -366,11 +366,11 @@ def run(chk, b, tier):
     mm.refs["refs/zzz/last"] = cz
     mm.refs["refs/aaa/first"] = ca
     gmany = G.write_model(mm, os.path.join(scratch, "many"), packed_refs=True)
-    for k in range(8 if tier == "quick" else 30):
+    for k in range(16 if tier == "quick" else 48):
         seq = [[], [["--no-tags"]], [["--include", "refs/heads"], ["--exclude", "/refs/heads/n000.*/"]], []][k % 4]
         argv = ["--json", "--no-progress", "--show-refs"] + [a for o in seq for a in o]
         # half of the runs write their reference listing to a reader that takes it in small pieces with pauses
-        slow = [None, (4096, 2), None, (512, 1, 300), None, (65536, 20, 600), None, (4096, 0.2)][k % 8]
+        slow = [None, (4096, 2, 150), (1024, 1, 400), (512, 1, 300), None, (65536, 20, 600), (4096, 5, 800), (4096, 0.2, 200)][k % 8]
         r = R.sizer(sz, gmany, argv, env={"GOMAXPROCS": ["1", "2", "4", "16"][k % 4]}, tmpdir=tmp, timeout=300, slow_stderr=slow)
         chk.count()
         if r.rc != 0:
